@@ -37,6 +37,9 @@ type histParams struct {
 	// LongTokens: at a refresh the authenticator hands out an access token as long as a real signed token with
 	// many claims, so that from then on the sealed session cookie is larger than 4096 bytes
 	LongTokens bool
+	// Path: what every request of the history asks for ("" = /private); /favicon.ico is answered by a handler
+	// of its own, which authenticates the same way before it forwards
+	Path string
 }
 
 // histTokenSuffix is appended to every token of a LongTokens family.
@@ -159,8 +162,9 @@ func histAlphabet(p histParams) authAlphabet {
 		}
 	}
 	faults := func(ok harness.AuthAnswer, denied harness.AuthAnswer, malformedStatus int) []harness.AuthAnswer {
+		// (502 / 504: a gateway in front of the authenticator; "any other status" — no grace)
 		return []harness.AuthAnswer{ok, denied, ans(401, "unauthorized"), ans(429, "slow down"), ans(503, "unavailable"), ans(500, "boom"),
-			{Reset: true}, ans(malformedStatus, "malformed{")}
+			{Reset: true}, ans(malformedStatus, "malformed{"), ans(502, "bad gateway"), ans(504, "gateway timeout")}
 	}
 	return authAlphabet{
 		// (a malformed 200 body is still a 200 for /validate: the body is not read; the last answer asks the
@@ -259,7 +263,11 @@ func (h *histRunner) step(st *histState, gap int64, x *explore.Exec, cookieVal s
 	}
 	scriptAuthPerStep(e, x, histAlphabet(p))
 	hdr := http.Header{"Cookie": {harness.CookieName + "=" + cookieVal}}
-	resp := e.Do(harness.NewRequest("GET", "/private", hostA, hdr, nil))
+	path := "/private"
+	if p.Path != "" {
+		path = p.Path
+	}
+	resp := e.Do(harness.NewRequest("GET", path, hostA, hdr, nil))
 	obs := histObs{Served: resp.Served(), Status: resp.Status}
 	for _, c := range resp.Calls {
 		obs.Calls = append(obs.Calls, c.Endpoint+" -> "+c.Answer)
